@@ -314,6 +314,14 @@ pub fn base_sources(tier: Tier) -> Vec<(String, String)> {
     {
         v.push((format!("text-{i}"), s.to_string()));
     }
+    // accepted grammars whose result depends on more than the tokens' kinds: generic payload types at every use site,
+    // attributes on every declaration, names that clash with the generator's helpers (renaming), related names
+    v.push(("generic-payloads".into(), crate::c13::grammar_for("a::B<(), c9<u8, B>, x::Y>", "std::vec::Vec<(a, B)>".replace("(a, B)", "a::B").as_str())));
+    v.push(("shaped-payloads".into(), crate::c13::shaped_grammar(1, "a<b::C<()>>", "D")));
+    v.push(("all-helper-names".into(), crate::c14::all_helpers_source()));
+    v.push(("attributes-everywhere".into(), "#[a] #[b(c)]\nstart A\n#[derive(Debug)]\n#[doc = \"é\"]\nenum A { V(B $T) W { x: $U _: A } }\n#[c]\nstruct B\n#[d] #[e]\nterminal Tok { $T: () $U: a::B<c> }\n".replace("#[a] #[b(c)]\nstart A", "start A")));
+    v.push(("related-names".into(), crate::names::render(&[(crate::names::Role::T1, "Ab"), (crate::names::Role::T2, "AbB"), (crate::names::Role::N2, "A")])));
+    v.push(("terminal-enum-first".into(), "terminal Tok { $T: u8 }\n#[x]\nstruct B($T)\nstart A\n#[y]\nenum A { V(B) W }\n".into()));
     // samples of G(2,2,3,2) under rotating presentations
     {
         use crate::scopes::*;
